@@ -51,7 +51,18 @@ def run_keep(case) -> None:
     hw = {"nv": lambda: NVHardwareConfig(5), "generic": lambda: GenericHardwareConfig(5), "generic1": lambda: GenericHardwareConfig(1),
           "custom1": lambda: HardwareConfig(1, 4)}[case["hardware"]]()
     sock = EPRSocket("bob")
-    ctrl, conn = sim.fresh(sim.StateVectorExecutor, network_stack_cls=net.ScriptedNetworkStack, epr_sockets=[sock], hardware_config=hw, max_qubits=5)
+    extra: Dict[str, Any] = {"hardware_config": hw}
+    if case.get("compiler") == "nv":
+        # NV selected through the compiler argument (with a generic hardware config, or none at all, passed along)
+        from netqasm.lang.instr.flavour import NVFlavour
+        from netqasm.sdk.transpile import NVSubroutineTranspiler
+
+        extra = {"compiler": NVSubroutineTranspiler, "flavour": NVFlavour()}
+        if case.get("hardware_given") == "generic":
+            extra["hardware_config"] = GenericHardwareConfig(5)
+        elif case.get("hardware_given") == "nv":
+            extra["hardware_config"] = hw
+    ctrl, conn = sim.fresh(sim.StateVectorExecutor, network_stack_cls=net.ScriptedNetworkStack, epr_sockets=[sock], max_qubits=5, **extra)
     ex = ctrl._executor
     stack = ctrl.network_stack
     others = []
@@ -92,8 +103,8 @@ def run_keep(case) -> None:
     api = {"recv_keep_seq": "recv_keep", "recv_keep_seq1": "recv_keep", "recv_keep_with_info_seq1": "recv_keep_with_info"}.get(variant, variant)
     if variant.endswith("_seq1"):
         kw["sequential"] = True  # one pair, handled pair by pair, but nothing registered to handle it
-    if role == "recv":
-        kw["expect_phi_plus"] = expect
+    if role == "recv" and not (expect and case.get("expect_by_default")):
+        kw["expect_phi_plus"] = expect  # (left out when the case relies on the documented default, True)
     outcomes = None
     if variant == "recv_keep_seq":
         outcomes = conn.new_array(n)
@@ -326,6 +337,17 @@ def keep_cases(max_pairs: int, ctx_open) -> List[Dict[str, Any]]:
                 for others in (0, 1):
                     for expect in (True, False):
                         cases.append({"kind": "keep", "bells": [b], "variant": variant, "hardware": hardware, "others": others if hardware != "generic1" else 0, "expect": expect})
+    # NV through the compiler argument alone; the expectation left at its documented default
+    for given in ("generic", "default", "nv"):
+        for bells in ([1], [2], [3, 1], [0, 2], [1, 2, 3]):
+            for variant in ("recv_keep", "recv_keep_with_info", "recv_keep_seq", "create_keep"):
+                cases.append({"kind": "keep", "bells": list(bells), "variant": variant, "hardware": "nv", "compiler": "nv", "hardware_given": given, "others": 0, "expect": True})
+    for hardware in ("generic", "nv"):
+        for variant in VARIANTS:
+            if variant == "create_keep":
+                continue
+            for bells in ([1], [2], [3], [2, 1]):
+                cases.append({"kind": "keep", "bells": list(bells), "variant": variant, "hardware": hardware, "others": 0, "expect": True, "expect_by_default": True})
     # single-communication-qubit devices that are not NV (one pair)
     for hardware in ("generic1", "custom1"):
         for b in range(4):
@@ -413,7 +435,7 @@ def shard(ctx: Ctx) -> None:
             ctx.fail(f)
         n_enum += 1
         nt = any(b != 0 for b in case["bells"]) if "bells" in case else case["bell"] != 0
-        labels = [case["kind"]] + ([case["variant"], case["hardware"], f"pairs:{len(case['bells'])}", f"others:{case['others']}", f"expect:{case['expect']}"] + (["prelude:" + case["prelude"][0]] if case.get("prelude") else []) if case["kind"] == "keep" else [case.get("route", "creator"), case["basis"]])
+        labels = [case["kind"]] + ([case["variant"], case["hardware"], f"pairs:{len(case['bells'])}", f"others:{case['others']}", f"expect:{case['expect']}"] + (["prelude:" + case["prelude"][0]] if case.get("prelude") else []) + (["nv-by-compiler:" + case["hardware_given"]] if case.get("compiler") else []) + (["expectation-left-at-default"] if case.get("expect_by_default") else []) if case["kind"] == "keep" else [case.get("route", "creator"), case["basis"]])
         stt.case(case, nt, labels, sample=case)
     stt.exhaustive_domains[f"keep scenarios up to {max_pairs} pairs x variants x hardware x others x expectation; measure-directly 4 Bell x 6 bases x 2 routes x expectation"] = n_enum
     if True:
